@@ -47,14 +47,22 @@ func init() {
 	}
 }
 
+// harnessDir: /verif/harness, or a staging copy during development (VERIF_HARNESS).
+func harnessDir() string {
+	if d := os.Getenv("VERIF_HARNESS"); d != "" {
+		return d
+	}
+	return filepath.Join(verifDir, "harness")
+}
+
 func (g *group) files() []string {
-	fs, _ := filepath.Glob(filepath.Join(verifDir, "harness", g.Name, "*.go"))
+	fs, _ := filepath.Glob(filepath.Join(harnessDir(), g.Name, "*.go"))
 	sort.Strings(fs)
 	return fs
 }
 
 func tmpl(name, pkg string) []byte {
-	b, err := os.ReadFile(filepath.Join(verifDir, "harness", "rt", name))
+	b, err := os.ReadFile(filepath.Join(harnessDir(), "rt", name))
 	if err != nil {
 		fatal("missing runtime template: %v", err)
 	}
